@@ -111,7 +111,7 @@ def run(v):
     d = outdir("C08")
     dev = vlib.dev_set("C08", DEVS)
     findings = {f["dev"]: f for f in vlib.known_findings("C08") if f.get("dev")}
-    t, cases = c07.grammar_cases("C08")
+    t, cases = c07.grammar_cases("C08", v.tier)
     v.add_tlc("MC_Grammar", t)
     cargo_build()
     mods = c07.modules_of(cases, d, "Gm")
